@@ -241,9 +241,14 @@ impl Property for C03P {
         vec![
             StreamSpec::new("rendered", cases(tier).div_ceil(BLOCK), false, &format!("{} rendered abstract streams", cases(tier))),
             StreamSpec::new("corpus", 4, true, "the non-error test-suite cases against their tree: expectation, x 4 layout-preserving variants"),
+            StreamSpec::new("flow-entries-exh", 2, true, "every flow sequence and every flow mapping of 1..3 entries over 11 / 10 entry shapes (plain, explicit, empty-key, empty-value, adjacent-value, collection-key, nested) in 3 contexts"),
         ]
     }
     fn run_block(&self, ctx: &mut Ctx, stream: &str, block: u64) {
+        if stream == "flow-entries-exh" {
+            flow_entries_exh(ctx, block == 0);
+            return;
+        }
         if stream == "corpus" {
             for id in corpus_ids() {
                 let json = || json!({"corpus": id, "variant": block});
@@ -264,6 +269,11 @@ impl Property for C03P {
         );
     }
     fn replay(&self, ctx: &mut Ctx, case: &Value) -> CheckResult {
+        if let (Some(doc), Some(exp)) = (case.get("flow_doc").and_then(|x| x.as_str()), case.get("expected").and_then(|x| x.as_array())) {
+            let doc = doc.to_string();
+            let exp: Vec<String> = exp.iter().filter_map(|x| x.as_str().map(|s| s.to_string())).collect();
+            return ctx.eval(&|| case.clone(), |info| check_flow_doc(info, &doc, &exp));
+        }
         if let (Some(y), Some(t)) = (case.get("yaml").and_then(|x| x.as_str()), case.get("tree").and_then(|x| x.as_str())) {
             let (y, t) = (y.to_string(), t.to_string());
             return ctx.eval(&|| case.clone(), |info| check_yaml_tree(info, "witness", &y, &t, 0));
@@ -277,5 +287,96 @@ impl Property for C03P {
         let l = unhex(case["layout_hex"].as_str().unwrap_or(""));
         let r = case["rich"].as_bool().unwrap_or(true);
         ctx.eval(&|| case.clone(), |info| check_rendered(info, &t, &l, r))
+    }
+}
+
+
+// ---- exhaustive small scope over flow collection entries -----------------------------------------
+
+/// (text, events in test-suite notation) of one flow sequence entry
+const SEQ_ENTRIES: [(&str, &[&str]); 11] = [
+    ("a", &["=VAL :a"]),
+    ("? a : b", &["+MAP", "=VAL :a", "=VAL :b", "-MAP"]),
+    ("? a", &["+MAP", "=VAL :a", "=VAL :", "-MAP"]),
+    ("a: b", &["+MAP", "=VAL :a", "=VAL :b", "-MAP"]),
+    ("\"q k\":v", &["+MAP", "=VAL \"q k", "=VAL :v", "-MAP"]),
+    ("[x]: v", &["+MAP", "+SEQ", "=VAL :x", "-SEQ", "=VAL :v", "-MAP"]),
+    ("{a: b}", &["+MAP", "=VAL :a", "=VAL :b", "-MAP"]),
+    (": v", &["+MAP", "=VAL :", "=VAL :v", "-MAP"]),
+    ("a:", &["+MAP", "=VAL :a", "=VAL :", "-MAP"]),
+    ("? : v", &["+MAP", "=VAL :", "=VAL :v", "-MAP"]),
+    ("[]", &["+SEQ", "-SEQ"]),
+];
+
+/// (text, events) of one flow mapping entry
+const MAP_ENTRIES: [(&str, &[&str]); 10] = [
+    ("a: b", &["=VAL :a", "=VAL :b"]),
+    ("a", &["=VAL :a", "=VAL :"]),
+    ("a:", &["=VAL :a", "=VAL :"]),
+    (": v", &["=VAL :", "=VAL :v"]),
+    ("? a : b", &["=VAL :a", "=VAL :b"]),
+    ("? a", &["=VAL :a", "=VAL :"]),
+    ("? : v", &["=VAL :", "=VAL :v"]),
+    ("\"q\":v", &["=VAL \"q", "=VAL :v"]),
+    ("[x]: y", &["+SEQ", "=VAL :x", "-SEQ", "=VAL :y"]),
+    ("{a: b}: c", &["+MAP", "=VAL :a", "=VAL :b", "-MAP", "=VAL :c"]),
+];
+
+pub fn check_flow_doc(info: &mut CaseInfo, doc: &str, expected: &[String]) -> CheckResult {
+    for b in [Backend::Str, Backend::Buffered] {
+        let o = parse_with(b, doc);
+        if let Some(e) = &o.error {
+            fail!("rejects-wellformed", "{}: {}; document: {doc:?}", b.name(), e.display);
+        }
+        let got = ev_lines(&o);
+        let same = |g: &String, e: &String| g == e || (e.ends_with(" :") && e.starts_with("=VAL") && *g == format!("{e}~"));
+        if got.len() != expected.len() || !got.iter().zip(expected.iter()).all(|(g, e)| same(g, e)) {
+            let n = got.len().min(expected.len());
+            let at = (0..n).find(|i| !same(&got[*i], &expected[*i])).unwrap_or(n);
+            fail!("events-differ", "{}: line {at}: expected {:?}, got {:?}; document: {doc:?}", b.name(), expected.get(at), got.get(at));
+        }
+    }
+    info.nontrivial(doc);
+    info.class("flow-entries-exhaustive");
+    Ok(())
+}
+
+fn flow_entries_exh(ctx: &mut Ctx, sequences: bool) {
+    let n = if sequences { SEQ_ENTRIES.len() } else { MAP_ENTRIES.len() };
+    let mut lists: Vec<Vec<usize>> = vec![];
+    for a in 0..n {
+        lists.push(vec![a]);
+        for b in 0..n {
+            lists.push(vec![a, b]);
+            for c in 0..n {
+                lists.push(vec![a, b, c]);
+            }
+        }
+    }
+    for l in lists {
+        let (texts, evs): (Vec<&str>, Vec<&[&str]>) = l.iter().map(|i| if sequences { SEQ_ENTRIES[*i] } else { MAP_ENTRIES[*i] }).unzip();
+        let (open, close, start, end) = if sequences { ("[", "]", "+SEQ", "-SEQ") } else { ("{", "}", "+MAP", "-MAP") };
+        for (pre, post, before, after) in [
+            ("", "\n", vec![], vec![]),
+            ("k: ", "\n", vec!["+MAP", "=VAL :k"], vec!["-MAP"]),
+            ("- x\n- ", "\n", vec!["+SEQ", "=VAL :x"], vec!["-SEQ"]),
+        ] {
+            for sep in [", ", ","] {
+                let doc = format!("{pre}{open}{}{close}{post}", texts.join(sep));
+                let mut expected: Vec<String> = vec!["+STR".into(), "+DOC".into()];
+                expected.extend(before.iter().map(|s| s.to_string()));
+                expected.push(start.into());
+                for e in &evs {
+                    expected.extend(e.iter().map(|s| s.to_string()));
+                }
+                expected.push(end.into());
+                expected.extend(after.iter().map(|s| s.to_string()));
+                expected.extend(["-DOC".to_string(), "-STR".to_string()]);
+                let json = || json!({"flow_doc": doc, "expected": expected});
+                if let Err(f) = ctx.eval(&json, |info| check_flow_doc(info, &doc, &expected)) {
+                    ctx.record(json(), &f);
+                }
+            }
+        }
     }
 }
